@@ -51,10 +51,12 @@ FileRef(s, c, i) ==
     IF i > Len(s) THEN <<>>
     ELSE IF s[i].k = "inl" THEN (IF KeepIt(s[i], c) THEN <<Strip(s[i])>> ELSE <<>>) \o FileRef(s, c, i + 1)
     ELSE IF s[i].k = "open" THEN
-         (IF KeepIt(s[i], c) THEN SubSeq(s, i + 1, ParaEnd(s, i)) ELSE <<>>) \o FileRef(s, c, ParaEnd(s, i) + 1)
+         \* kept: only the opener goes, the body is read on (it may hold guarded rules of its own); dropped: all of it
+         (IF KeepIt(s[i], c) THEN FileRef(s, c, i + 1) ELSE FileRef(s, c, ParaEnd(s, i) + 1))
     ELSE <<s[i]>> \o FileRef(s, c, i + 1)
 FileOK(src, out, c) == NonBlank(out) = NonBlank(FileRef(src, c, 1))
-FileInContract(s) == \A i \in DOMAIN s : s[i].k = "open" => Terminated(s, i) /\ \A j \in (i + 1)..ParaEnd(s, i) : ~Marked(s[j])
+\* a guarded paragraph may hold inline-guarded rules; an opener inside a paragraph is not part of the contract
+FileInContract(s) == \A i \in DOMAIN s : s[i].k = "open" => Terminated(s, i) /\ \A j \in (i + 1)..ParaEnd(s, i) : s[j].k # "open"
 
 \* ---- algorithm model: Run = scan once, apply in order to the CURRENT text
 Dirs(s) == SelectSeq(s, Marked)
